@@ -21,7 +21,8 @@ RULE = ("Hypothesis draws a strictly convex model with a manufactured optimum x*
         "same method and the captured x0; if it converges (success, feasible, gap_raw <= 1e-2(1+|f*|)) optyx must "
         "report OPTIMAL, be feasible and satisfy f(x_optyx)-f* <= 10*gap_raw + 1e-6(1+|f*|) with a consistent "
         "objective_value.  Non-trivial = a constraint or bound is active at x*, or maximise, or natural order != "
-        "declaration order.")
+        "declaration order."
+        ' Also (round 6): a special family whose whole objective is one power sum over a strided / reversed / offset view ((x[::2] ** k).sum() [+ c]) with the skipped variables in equality rows only; fun and jac handed to SciPy are compared with the closed form.')
 BUDGET = {"quick": {"workers": 16, "examples": 80}, "thorough": {"workers": 16, "examples": 800}}
 ASSUMPTIONS = ["the outcome clause is conditional on the raw SciPy run converging; otherwise the case is inconclusive"]
 MANIFEST = {
@@ -52,11 +53,86 @@ def cases(draw):
             "deep_algorithms": draw(st.integers(0, 4)) == 0, "shared_prior": draw(st.booleans())}
 
 
+@st.composite
+def view_power_cases(draw):
+    """the whole objective is ONE power sum over a strided / reversed / offset view of a vector; the variables the view skips
+    occur in the equality rows only"""
+    n = draw(st.integers(4, 9))
+    a_, b_, s_ = draw(st.sampled_from([(None, None, 2), (1, None, 2), (None, None, 3), (None, None, -2), (1, n - 1, None), (None, None, -1),
+                                       (0, n, 2), (2, None, None)]))
+    return {"special": "view-power-sum", "n": n, "slice": [a_, b_, s_], "k": draw(st.sampled_from([2, 2, 4, 3])),
+            "sense": draw(st.sampled_from(["minimize", "maximize"])), "method": draw(st.sampled_from(["SLSQP", "trust-constr", "auto"])),
+            "rows": [[draw(st.sampled_from([0.0, 1.0, -1.0, 2.0, 0.5])) for _ in range(n)] for _ in range(draw(st.integers(1, 3)))],
+            "rhs": [draw(st.sampled_from([0.0, 1.0, 2.0])) for _ in range(3)], "plus_const": draw(st.booleans()),
+            "points": [[draw(st.integers(-8, 8)) / 4.0 for _ in range(n)] for _ in range(2)]}
+
+
 def strategy(tier):
-    return cases()
+    return st.one_of(*([cases()] * 9), view_power_cases())
+
+
+def _special_view_power(case):
+    """what SciPy receives for min / max (x[view] ** k).sum() [+ c]: fun and jac against the closed form, in the problem's variable
+    order; the skipped variables have derivative exactly 0"""
+    from optyx import Problem, VectorVariable
+    from harness import seams
+    n, k = case["n"], case["k"]
+    sl = slice(*case["slice"])
+    idx = list(range(n))[sl]
+    classes = ["special:view-power-sum", f"slice:{case['slice']}", "method:" + case["method"], "sense:" + case["sense"]]
+    if not idx:
+        return Result.discard("empty-view", classes)
+    desc = f"{case['sense']} (x[{case['slice']}] ** {k}).sum(){' + 1.5' if case['plus_const'] else ''}, n={n}, method={case['method']}"
+    with quiet():
+        x = VectorVariable("x", n, lb=-10, ub=10)
+        obj = (x[sl] ** k).sum()
+        if case["plus_const"]:
+            obj = obj + 1.5
+            classes.append("plus-constant")
+        else:
+            classes.append("bare")
+        P = Problem()
+        (P.minimize if case["sense"] == "minimize" else P.maximize)(obj)
+        for row, b in zip(case["rows"], case["rhs"]):
+            if any(row):
+                P.subject_to((np.array(row) @ x).eq(b))
+        # every variable is mentioned (bounds rows), so the problem's variable list is x[0..n-1]
+        P.subject_to(x >= -10.0)
+        try:
+            with seams.minimize_capture() as cap:
+                P.solve(method=case["method"])
+        except Exception as ex:
+            return Result.violation(f"solve-raises:{exc_label(ex)}", f"{desc}: {ex!r}", classes)
+        if not cap.calls:
+            classes.append("special:solver-not-called")
+            return Result.ok(False, classes)
+        names = [v.name for v in P.variables]
+        if names != [f"x[{i}]" for i in range(n)]:
+            return Result.discard("unexpected-variable-list", classes)
+        call = cap.calls[0]
+        sg = 1.0 if case["sense"] == "minimize" else -1.0
+        for pt in case["points"]:
+            z = np.array(pt, dtype=float)
+            fref = sg * (float(np.sum(z[idx] ** k)) + (1.5 if case["plus_const"] else 0.0))
+            gref = np.zeros(n)
+            for i in idx:
+                gref[i] += sg * k * z[i] ** (k - 1)
+            try:
+                fv = float(call["fun"](z.copy()))
+                jv = np.asarray(call["jac"](z.copy()), dtype=float).reshape(-1)
+            except Exception as ex:
+                return Result.violation(f"callable-raises:{exc_label(ex)}", f"{desc} at {pt}: {ex!r}", classes)
+            scale = float(np.sum(np.abs(z[idx]) ** k)) + 1.5
+            if abs(fv - fref) > 1e-9 * (1 + scale):
+                return Result.violation("wiring-fun:view-power-sum", f"{desc} at {pt}: fun={fv!r}, closed form {fref!r}", classes)
+            if jv.shape != gref.shape or not np.all(np.abs(jv - gref) <= 1e-9 * (1 + float(np.max(np.abs(gref), initial=0.0)))):
+                return Result.violation("wiring-jac:view-power-sum", f"{desc} at {pt}: jac={jv.tolist()}, closed form {gref.tolist()}", classes)
+    return Result.ok(True, classes)
 
 
 def sample_repr(case):
+    if case.get("special"):
+        return {k: v for k, v in case.items() if k != "points"}
     d = models.describe(case["model"])
     d.update(method=case["method"], x0=case["x0kind"], xstar=dict(zip(case["model"]["names"], case["model"]["data"]["xstar"])))
     return d
@@ -105,6 +181,8 @@ def _known_squared_norm(case, res):
 def check(case):
     if case.get("special") == "squared-norm-at-origin":
         return _special_squared_norm(case)
+    if case.get("special") == "view-power-sum":
+        return _special_view_power(case)
     from scipy.optimize import minimize as raw_minimize
 
     model, method = case["model"], case["method"]
